@@ -9,8 +9,17 @@ import random
 from collections import Counter
 
 
+RAISED = {"last": None}
+
+
 class HarnessError(Exception):
-    """Trouble in the machinery (never a VIOLATION)."""
+    """Trouble in the machinery (never a VIOLATION).  Code under test may swallow exceptions (`except Exception` in
+    the arbiter's main loop, `except BaseException` in the workers): every construction is remembered so that the runner
+    reports the run as a harness error whatever happened to the exception object."""
+
+    def __init__(self, *a):
+        Exception.__init__(self, *a)
+        RAISED["last"] = "%s: %s" % (type(self).__name__, " ".join(map(str, a)))
 
 
 class SeamLeak(HarnessError):
